@@ -61,6 +61,7 @@ class Unit:
         self.reveal = ()
         self.ghost_params = ()
         self.obligation_props = []
+        self.elem_classes = {}
         self.local_types = {}
         self.ghost_const = ()
         self.ghost_havoc = None
@@ -399,7 +400,8 @@ class Registry:
         """facts about str(int): decimal, optional '-'"""
         s = self.int_to_str(x)
         digits = z3.Plus(z3.Range("0", "9"))
-        return [z3.InRe(s, z3.Concat(z3.Option(z3.Re("-")), digits)), self.str_to_int(s) == x, self.str_is_int(s)]
+        return [z3.InRe(s, z3.Concat(z3.Option(z3.Re("-")), digits)), self.str_to_int(s) == x, self.str_is_int(s),
+                z3.Implies(x >= 0, z3.And(z3.InRe(s, digits), z3.StrToInt(s) == x))]
 
     def replace_facts(self, s, a, b, r):
         return []
